@@ -202,6 +202,99 @@ def step (grow : Nat → Nat) (fresh : Nat) (s : DynamicPool) (op : Op) (m : Mem
   | .reset => let r := s.reset m; (none, r.1, r.2)
   | .write off n v => let r := s.write off n v m; (none, r.1, r.2)
 
+/-! ### accounting-only twin
+
+`Acct` is `DynamicPool` without the page contents and the ghost block lists: exactly the fields the
+control flow of the C functions reads.  Its operations are the model's operations with the byte
+updates removed; `Proofs/DynamicPoolAcct.lean` proves that they commute with the projection
+`DynamicPool.acct` (same pointers, same ledger, same fields), so the driver may run sessions with
+pages of many megabytes (`phys=quiet`) on `Acct` without materialising their bytes. -/
+structure Acct where
+  triple      : Triple
+  isFixed     : Bool
+  isPacked    : Bool
+  topPageSize : Nat
+  ab          : Nat
+  sizes       : List Nat       -- page payload sizes, newest first
+  free        : Nat
+  high        : Nat
+  deriving Repr, DecidableEq
+
+def acct (s : DynamicPool) : Acct :=
+  { triple := s.triple, isFixed := s.isFixed, isPacked := s.isPacked, topPageSize := s.topPageSize, ab := s.ab,
+    sizes := s.pages.map (·.size), free := s.free, high := s.high }
+
+namespace Acct
+
+def new (size : Nat) (fixed packed : Bool) (ab : Nat) (t : Triple) (m : Mem) : Stat × Option Acct × Mem :=
+  if size > sizeMod - 1 - pageInfoSize then (.errInvalidCapacity, none, m) else
+  let a1 := m.allocT t
+  if !a1.1 then (.errAlloc, none, a1.2) else
+  let a2 := a1.2.allocT t
+  if !a2.1 then (.errAlloc, none, a2.2.freeT t) else
+  (.ok, some { triple := t, isFixed := fixed, isPacked := packed, topPageSize := size, ab := ab, sizes := [size],
+               free := 0, high := 0 }, a2.2)
+
+def freePages (t : Triple) : List Nat → Mem → Mem
+  | [], m => m
+  | _ :: ps, m => freePages t ps (m.freeT t)
+
+def destroy (a : Acct) (m : Mem) : Mem :=
+  let m := m.check (a.sizes != [])
+  (freePages a.triple a.sizes m).freeT a.triple
+
+def resetLoop (t : Triple) : List Nat → Mem → Option Nat × Mem
+  | [], m => (none, m.check false)
+  | [p], m => (some p, m)
+  | _ :: q :: rest, m => resetLoop t (q :: rest) (m.freeT t)
+
+def reset (a : Acct) (m : Mem) : Acct × Mem :=
+  let r := resetLoop a.triple a.sizes m
+  match r.1 with
+  | some p => ({ a with sizes := [p], topPageSize := p, free := 0, high := 0 }, r.2)
+  | none => (a, r.2)
+
+def bump (a : Acct) (n padding : Nat) : Option (Nat × Nat) × Acct :=
+  let ptr := a.free
+  (some (a.sizes.length - 1, ptr), { a with high := ptr, free := ptr + n + padding })
+
+def malloc (grow : Nat → Nat) (a : Acct) (n : Nat) (m : Mem) : Option (Nat × Nat) × Acct × Mem :=
+  if n ≥ a.topPageSize then (none, a, m) else
+  let padding := Spec.padOf a.isPacked a.ab n
+  let used := a.free
+  if n + padding > a.topPageSize - used then
+    let nextMax := grow a.topPageSize
+    if a.isFixed || n + padding > nextMax then (none, a, m) else
+    if nextMax > sizeMod - 1 - pageInfoSize then (none, a, m) else
+    let al := m.allocT a.triple
+    if !al.1 then (none, a, al.2) else
+    let r := ({ a with sizes := nextMax :: a.sizes, high := 0, free := 0, topPageSize := nextMax } : Acct).bump n padding
+    (r.1, r.2, al.2)
+  else
+    let r := a.bump n padding
+    (r.1, r.2, m)
+
+/-- the bounds check of calloc's `memset` needs the newest page's size -/
+def topSize (a : Acct) : Nat := a.sizes.headD 0
+
+def calloc (grow : Nat → Nat) (a : Acct) (count sz : Nat) (m : Mem) : Option (Nat × Nat) × Acct × Mem :=
+  if mulOverflows count sz then (none, a, m) else
+  let n := (count * sz) % sizeMod
+  let r := malloc grow a n m
+  match r.1 with
+  | some p => (some p, r.2.1, r.2.2.check (p.2 + n ≤ r.2.1.topSize))
+  | none => (none, r.2.1, r.2.2)
+
+def release (a : Acct) (p : Option (Nat × Nat)) : Acct :=
+  if p = some (a.sizes.length - 1, a.high) then { a with free := a.high } else a
+
+def usedBytes (a : Acct) : Nat := a.free + a.sizes.tail.foldr (· + ·) 0
+def freeBytes (a : Acct) : Nat := a.topPageSize - a.free
+
+def write (a : Acct) (off n : Nat) (m : Mem) : Mem := m.check (off + n ≤ a.topSize)
+
+end Acct
+
 open Spec.DPool (Op) in
 /-- the spec operation a model step corresponds to: the refusal flag is the allocator's next answer -/
 def annotate (s : DynamicPool) (op : Op) (m : Mem) : Op :=
